@@ -151,6 +151,22 @@ def run(tier, seed, replay=None):
             if p.name != attr or p.source not in names:
                 res.violation({"property": "C12", "kind": "oracle", "schema": s, "finding": "C12-K4" if ("" in names and attr == "blank" and p.source == "blank") else None,
                                "what": "property %r does not record its JSON name (source=%r)" % (attr, p.source)})
+        # the same schema OBJECT met at several positions (what $ref resolution produces) and parsed again: the JSON names stay recorded
+        inner = copy.deepcopy(s)
+        outer = {"type": "object", "title": "Outer", "properties": {"first": inner, "second": inner}, "additionalProperties": inner}
+        try:
+            o1 = parse_element(outer)
+            o2 = parse_element(outer)          # the document as the first pass left it
+        except BaseException:  # noqa
+            continue
+        stats["shared_objects_parsed"] = stats.get("shared_objects_parsed", 0) + 1
+        for label, o in (("first parse", o1), ("second parse of the same document", o2)):
+            for where, sub in (("first", o.properties["first"].element), ("second", o.properties["second"].element), ("additionalProperties", o.additionalProperties)):
+                got = sorted(p.source for p in getattr(sub, "properties", {}).values())
+                if got != sources:
+                    res.violation({"property": "C12", "kind": "oracle", "schema": s, "position": where, "pass": label,
+                                   "what": "the schema object met again at %r (%s) records the JSON names %r, not %r" % (where, label, got, sources)})
+                    break
     # ---- whole documents: class names distinct, valid, not shadowing imports; module compiles ----------------
     from statham.serializers import serialize_python
     for _ in range(0 if replay else (120 if tier == "quick" else 2000)):
@@ -196,14 +212,39 @@ def run(tier, seed, replay=None):
             res.violation({"property": "C12", "kind": "oracle", "schema": s, "what": "generated module is not valid Python: %s" % exc})
         except BaseException:  # noqa   (other generator errors belong to C02/C11)
             pass
+    # ---- automatic titles of untitled schemas (statham/titles.py) vs Titles.v ---------------------------------------
+    from statham.titles import _get_title_from_reference
+    SEGS = ["properties", "items", "definitions", "anyOf", "oneOf", "allOf", "not", "0", "1", "12", "007", "x", "Foo bar", "additionalProperties",
+            "patternProperties", "\u00b2", "\u0663", "a.b", "item", "Items", "anyof", "-1", "1a", "value", "list", "dependencies", "a~1b", "\u65e5\u672c"]
+    tcases, tmetas = [], []
+    for i in range(0 if replay else (400 if tier == "quick" else 6000)):
+        name = rng.choice(["schema.json", "a.b.yaml", "noext", ".hidden", "x.y.z", "s"])
+        base = rng.choice(["", "dir/", "/abs/dir/", "http://host/p/"])
+        segs = [rng.choice(SEGS) for _ in range(rng.randint(0, 6))]
+        ref = base + name + "#/" + "/".join(segs)
+        try:
+            got = _get_title_from_reference(ref)
+        except BaseException as exc:  # noqa
+            res.violation({"property": "C12", "kind": "oracle", "reference": ref, "what": "_get_title_from_reference raised %s" % type(exc).__name__})
+            continue
+        stats["auto_titles"] = stats.get("auto_titles", 0) + 1
+        digits = sorted(set(s for s in segs if s.isdigit()))
+        tcases.append("(%s, %s, %s, %s)" % (cq_str(name), cq_list([cq_str(s) for s in segs]), cq_list([cq_str(s) for s in digits]), cq_str(got)))
+        tmetas.append(ref)
+        cls = _title_format(got)
+        if cls and not (xid_ok(cls) or k3(cls)):
+            res.violation({"property": "C12", "kind": "oracle", "reference": ref, "class_name": cls, "what": "class name %r of an automatic title is not a usable identifier" % cls})
+    tcodes, terr = sc.eval_codes(["Titles"], "run_title_case", tcases, tag="c12t", shard=700) if tcases else ({}, None)
     codes, err = sc.eval_codes(["Names", "RunNames"], "run_names_case", cases, tag="c12", shard=700)
-    res.corr_error = err
+    res.corr_error = err or terr
     res.corr_mismatches = [{"name": metas[i], "codes": cs, "what": "Names.v disagrees with the implementation: 1=_parse_attribute_name, 2=_title_format"}
                            for i, cs in sorted((codes or {}).items())]
+    res.corr_mismatches += [{"reference": tmetas[i], "codes": cs, "what": "Titles.v disagrees with _get_title_from_reference"}
+                            for i, cs in sorted((tcodes or {}).items())]
     res.witness_status = {"C12-K1": "fails" if stats["k1_collisions"] else "not-exercised", "C12-K2": "fails" if stats["k2_names"] else "not-exercised",
                           "C12-K3": "fails" if stats["k3_titles"] else "not-exercised"}
     res.coverage["distribution"] = stats
-    res.coverage["traces_validated_against_impl"] = len(cases)
+    res.coverage["traces_validated_against_impl"] = len(cases) + len(tcases)
     res.coverage["rule"] = ("names: single code points (all of U+0000-U+024F, every endpoint +-1 of the interpreter's alnum ranges, strided and random "
                             "points over the 17 planes) alone and in four contexts, plus random strings over an alphabet of separators, symbols, "
                             "non-ASCII letters and reserved words; each through the real functions, the identifier/keyword/reserved oracle and "
